@@ -1,45 +1,45 @@
-(* The conversion ladders of parse_musicxml (_et_xml_to_music_xml):
+(* The conversion ladders of parse_musicxml (_et_xml_to_music_xml), interpreted from the rungs that tr/code.py reads from the source
+   (at the pinned commit:
      text      : cls(value_=text.strip())  except TypeError -> cls(float(text)) except TypeError -> cls(int(text))
-     attribute : setattr(k, v)  except (TypeError, ValueError) -> setattr(k, int(v))  except ValueError -> setattr(k, float(v))
+     attribute : setattr(k, v)  except (TypeError, ValueError) -> setattr(k, int(v))  except ValueError -> setattr(k, float(v)))
    on resolved simple-type classes (Model/SimpleType.v).  float() / int() of Python are parameters; the theorems only use
    their behaviour on the texts they speak about. *)
-From MX Require Import Spec.CharRe Model.SimpleType Model.SimpleTypeThms.
+From MX Require Import Spec.CharRe Model.SimpleType Model.SimpleTypeThms Gen.Code.
 From Coq Require Import List String NArith ZArith QArith Bool Lia DecimalString.
 Import ListNotations.
 
 Inductive lres := LValue (v:pyval) | LTypeError | LValueError | LOther.
 Definition of_res (r:res) (v:pyval) : lres := match r with Ok => LValue v | TypeErr => LTypeError | ValueErr => LValueError | OtherErr => LOther end.
+(* a ladder, as the translator reads it from the source (Gen/Code.v: parser_text_ladder, parser_attr_ladder): rungs
+   (conversion applied to the text, exception classes whose handler leads to the next rung); the last rung has no handler *)
+Definition has (e:pexn) (l:list pexn) : bool := existsb (fun x => match e, x with PTypeError, PTypeError | PValueError, PValueError => true | _, _ => false end) l.
 Section Ladder.
   Variable py_float : pstr -> option pyval.     (* None: float() raises ValueError *)
   Variable py_int : pstr -> option Z.           (* None: int() raises ValueError *)
-  Definition text_ladder (r:rcls) (text:pstr) : lres :=
-    let t := strip text in
-    match fst (run r (VStr t)) with
-    | TypeErr =>
-        match py_float t with
-        | None => LValueError
-        | Some f => match fst (run r f) with
-                    | TypeErr => match py_int t with None => LValueError | Some z => of_res (fst (run r (VInt z))) (VInt z) end
-                    | o => of_res o f end end
-    | o => of_res o (VStr t) end.
-  Definition attr_ladder (r:rcls) (v:pstr) : lres :=
-    match fst (run r (VStr v)) with
-    | TypeErr | ValueErr =>
-        match py_int v with
-        | Some z => of_res (fst (run r (VInt z))) (VInt z)        (* TypeError / ValueError of the second attempt propagate *)
-        | None => match py_float v with None => LValueError | Some f => of_res (fst (run r f)) f end end
-    | o => of_res o (VStr v) end.
+  Definition conv_arg (c:conv) (t:pstr) : option pyval := match c with CId => Some (VStr t) | CFloat => py_float t | CInt => option_map VInt (py_int t) end.
+  Definition attempt (c:conv) (r:rcls) (t:pstr) : lres := match conv_arg c t with None => LValueError | Some v => of_res (fst (run r v)) v end.
+  Fixpoint ladder_run (l:list (conv * list pexn)) (r:rcls) (t:pstr) : lres :=
+    match l with
+    | [] => LOther
+    | (c, hs) :: rest =>
+        match attempt c r t with
+        | LTypeError => if has PTypeError hs then ladder_run rest r t else LTypeError
+        | LValueError => if has PValueError hs then ladder_run rest r t else LValueError
+        | o => o end end.
+  (* element text is stripped first; attribute values are taken as they are *)
+  Definition text_ladder (l:list (conv * list pexn)) (r:rcls) (text:pstr) : lres := ladder_run l r (strip text).
+  Definition attr_ladder (l:list (conv * list pexn)) (r:rcls) (v:pstr) : lres := ladder_run l r v.
 
-  (* ---- enumerations: a literal read back from a file is the same str ---- *)
-  Theorem text_ladder_enum r lits lit : is_enum_r r = Some lits -> In lit lits -> strip (cp lit) = cp lit ->
-    text_ladder r (cp lit) = LValue (VStr (cp lit)).
+  (* ---- enumerations: a literal read back from a file is the same str (any ladder whose first rung offers the text itself) ---- *)
+  Theorem text_ladder_enum hs rest r lits lit : is_enum_r r = Some lits -> In lit lits -> strip (cp lit) = cp lit ->
+    text_ladder ((CId, hs) :: rest) r (cp lit) = LValue (VStr (cp lit)).
   Proof.
-    intros E I S. unfold text_ladder. rewrite S. rewrite (enum_r_spec r lits E). unfold enum_spec.
+    intros E I S. unfold text_ladder. rewrite S. cbn [ladder_run]. unfold attempt. cbn [conv_arg]. rewrite (enum_r_spec r lits E). unfold enum_spec.
     assert (M: in_strs (VStr (cp lit)) lits = true) by (apply in_strs_In; exists lit; auto). rewrite M. reflexivity.
   Qed.
-  Theorem attr_ladder_enum r lits lit : is_enum_r r = Some lits -> In lit lits -> attr_ladder r (cp lit) = LValue (VStr (cp lit)).
+  Theorem attr_ladder_enum hs rest r lits lit : is_enum_r r = Some lits -> In lit lits -> attr_ladder ((CId, hs) :: rest) r (cp lit) = LValue (VStr (cp lit)).
   Proof.
-    intros E I. unfold attr_ladder. rewrite (enum_r_spec r lits E). unfold enum_spec.
+    intros E I. unfold attr_ladder. cbn [ladder_run]. unfold attempt. cbn [conv_arg]. rewrite (enum_r_spec r lits E). unfold enum_spec.
     assert (M: in_strs (VStr (cp lit)) lits = true) by (apply in_strs_In; exists lit; auto). rewrite M. reflexivity.
   Qed.
 
@@ -59,23 +59,27 @@ Section Ladder.
       + match goal with |- fst (match ?g with _ => _ end) = _ => destruct g as [[] v'] eqn:G end; simpl in *; auto; discriminate.
       + match goal with |- fst (match ?g with _ => _ end) = _ => destruct g as [[] v'] eqn:G end; simpl in *; auto; discriminate.
   Qed.
-  (* the text the library emits for an accepted integer is read back as that integer, whatever float() makes of it *)
-  Theorem text_ladder_int r z : is_pure_int_r r = true -> fst (run r (VInt z)) = Ok ->
+  (* the text the library emits for an accepted integer is read back as that integer, whatever float() makes of it: on the ladder
+     text -> float(text) -> int(text) whose first two rungs hand a TypeError on to the next *)
+  Theorem text_ladder_int h1 h2 h3 r z : has PTypeError h1 = true -> has PTypeError h2 = true ->
+    is_pure_int_r r = true -> fst (run r (VInt z)) = Ok ->
     (forall f, py_float (strip (render_int z)) = Some f -> exists k q s, f = VFloat k q s) ->
     py_float (strip (render_int z)) <> None -> py_int (strip (render_int z)) = Some z ->
-    text_ladder r (render_int z) = LValue (VInt z).
+    text_ladder [(CId, h1); (CFloat, h2); (CInt, h3)] r (render_int z) = LValue (VInt z).
   Proof.
-    intros P A FF FN PI. unfold text_ladder.
-    rewrite (pure_int_rejects r (VStr (strip (render_int z))) P) by (intros; discriminate).
+    intros H1 H2 P A FF FN PI. unfold text_ladder. cbn [ladder_run]. unfold attempt. cbn [conv_arg].
+    rewrite (pure_int_rejects r (VStr (strip (render_int z))) P) by (intros; discriminate). cbn [of_res]. rewrite H1.
     destruct (py_float (strip (render_int z))) as [f|] eqn:Ef; [|contradiction].
     destruct (FF f eq_refl) as (k & q & s & ->).
-    rewrite (pure_int_rejects r (VFloat k q s) P) by (intros; discriminate).
-    rewrite PI, A. reflexivity.
+    rewrite (pure_int_rejects r (VFloat k q s) P) by (intros; discriminate). cbn [of_res]. rewrite H2.
+    rewrite PI. cbn [option_map]. rewrite A. reflexivity.
   Qed.
-  Theorem attr_ladder_int r z : is_pure_int_r r = true -> fst (run r (VInt z)) = Ok -> py_int (render_int z) = Some z ->
-    attr_ladder r (render_int z) = LValue (VInt z).
+  (* attributes: text -> int(text) -> ... *)
+  Theorem attr_ladder_int h1 h2 rest r z : has PTypeError h1 = true -> is_pure_int_r r = true -> fst (run r (VInt z)) = Ok -> py_int (render_int z) = Some z ->
+    attr_ladder ((CId, h1) :: (CInt, h2) :: rest) r (render_int z) = LValue (VInt z).
   Proof.
-    intros P A PI. unfold attr_ladder. rewrite (pure_int_rejects r (VStr (render_int z)) P) by (intros; discriminate). rewrite PI, A. reflexivity.
+    intros H1 P A PI. unfold attr_ladder. cbn [ladder_run]. unfold attempt. cbn [conv_arg].
+    rewrite (pure_int_rejects r (VStr (render_int z)) P) by (intros; discriminate). cbn [of_res]. rewrite H1. rewrite PI. cbn [option_map]. rewrite A. reflexivity.
   Qed.
 End Ladder.
 (* int() of Python on the texts the library emits for integers: modelled by the schema-side integer reader after strip *)
